@@ -12,9 +12,9 @@ NOTE = ('Trusted: CBMC 6.11 (front end, symbolic execution, SAT back end); the h
 
 CHECKS = {
  'C01': dict(cat='model_checking', ref='3/C01', tech=BMC,
-   text='Every named field of all 23 header formats, generic and dedicated reader, compared with the oracle bit range over ALL buffer contents on an exact-extent object, in the little- and big-endian configuration; loops fully unwound (unwinding assertions proved) so the verdict is complete for the finite input space. Thorough adds the generic reader over symbolic descriptors (quadlet<4, offset 0..31, bits<=64).'),
+   text='Every named field of all 23 header formats, generic and dedicated reader, compared with the oracle bit range over ALL buffer contents on an exact-extent object, in the little- and big-endian configuration; loops fully unwound (unwinding assertions proved) so the verdict is complete for the finite input space. The generic reader is also decided over SYMBOLIC descriptors (start quadlet 0..3, width 0..64 symbolic; bit offsets 0/3/16/29/31 in quick, every offset 0..31 in thorough).'),
  'C02': dict(cat='model_checking', ref='3/C02', tech=BMC,
-   text='Every named field, generic and dedicated writer, all prior buffer contents x all 2^64 values: whole object compared with the reference writer, read-back == v mod 2^w; exact-extent object; LE+BE. Thorough adds the generic writer over symbolic descriptors.'),
+   text='Every named field, generic and dedicated writer, all prior buffer contents x all 2^64 values: whole object compared with the reference writer, read-back == v mod 2^w; exact-extent object; LE+BE. The generic writer is also decided over symbolic descriptors (bit offsets 0/3/16/29/31 in quick, all 0..31 in thorough).'),
  'C03': dict(cat='model_checking', ref='3/C03', tech=BMC,
    text='Every accessor and initialiser runs on an object of exactly the published size with all CBMC pointer checks on; published length, sizeof and offsetof(payload) are compared with the oracle header size; payload accessor address.'),
  'C04': dict(cat='model_checking', ref='3/C04', tech=BMC,
